@@ -92,6 +92,21 @@ type Thread struct {
 	seenEp uint64
 	seen   [24]uint64
 	nseen  int
+
+	h uint64 // hash of the thread's causal history (happens-before fingerprint)
+
+	// an excursion of a spinning thread that re-reads shared state, finds nothing and parks again
+	// while nobody wrote anything is rolled back in the fingerprint: it is as if it had not run
+	cycOK  bool
+	cycEp  uint64
+	cycH   uint64
+	cycLog [16]cycRead
+	cycN   int
+}
+
+type cycRead struct {
+	o *objState
+	e uint64
 }
 
 // Done reports whether the thread function has returned.
@@ -141,6 +156,12 @@ type sched struct {
 	curFirst  []bool
 	nodeHash  []uint64
 	thash     uint64
+	objs      map[unsafe.Pointer]*objState
+	fsum      uint64   // commutative combination of all thread hashes: the state fingerprint
+	fps       []uint64 // fingerprint at each recorded decision
+	epochAt   []uint64 // write epoch at each recorded decision
+	chosenT   []int    // index of the thread chosen at each recorded decision (-1: not a thread choice)
+	parks     []SpinPark
 
 	steps   int
 	horizon int
@@ -155,6 +176,68 @@ type sched struct {
 
 	stepHook func()
 	diverged string
+}
+
+type objState struct{ w, r uint64 }
+
+// global pseudo-objects for operations that conflict with each other without sharing an address
+var gYield, gMark, gCtx, gClock byte
+
+func spread(h uint64) uint64 {
+	h ^= h >> 33
+	h *= 0xff51afd7ed558ccd
+	h ^= h >> 33
+	h *= 0xc4ceb9fe1a85ec53
+	h ^= h >> 33
+	return h
+}
+
+// ev records one event of thread t in the happens-before fingerprint: the event's hash is a function
+// of the thread's previous event and of the last conflicting event(s) on the object.
+func (s *sched) ev(t *Thread, kind uint64, obj unsafe.Pointer, write bool) {
+	old := t.h
+	e := mix(mix(old, kind+0x9e37), 0x51)
+	if obj != nil {
+		o := s.objs[obj]
+		if o == nil {
+			o = &objState{}
+			s.objs[obj] = o
+		}
+		if write {
+			e = mix(mix(e, o.w), o.r+1)
+			e = spread(e)
+			o.w, o.r = e, 0
+			t.cycOK = false
+		} else {
+			e = spread(mix(e, o.w))
+			o.r += e
+			if t.cycOK {
+				if t.cycN < len(t.cycLog) {
+					t.cycLog[t.cycN] = cycRead{o, e}
+					t.cycN++
+				} else {
+					t.cycOK = false
+				}
+			}
+		}
+	} else {
+		e = spread(e)
+		if write {
+			t.cycOK = false
+		}
+	}
+	t.h = e
+	s.fsum += spread(e^0xabcdef) - spread(old^0xabcdef)
+}
+
+// evDep adds a read dependency on obj to the thread's last event.
+func (s *sched) evDep(t *Thread, obj unsafe.Pointer) { s.ev(t, 0x77, obj, false) }
+
+// SpinPark records that a thread fell back into its read-only cycle.
+type SpinPark struct {
+	Decision int // number of decisions recorded before the park
+	Thread   int
+	Epoch    uint64
 }
 
 // OpRec is one granted operation (only recorded when Config.Trace is set).
@@ -193,6 +276,40 @@ type Result struct {
 	Diverged  string
 	Ops       []OpRec
 	Blocked   []string // description of blocked threads on deadlock
+	EpochAt   []uint64
+	ChosenT   []int
+	Parks     []SpinPark
+	FP        []uint64 // happens-before fingerprint of the state at each decision
+}
+
+// NoopExcursion reports whether the thread chosen at decision i did nothing but re-read shared state
+// and fall back into its read-only cycle before anybody wrote anything: the state after the
+// excursion equals the state before it, so the subtree below this choice is covered by the subtrees
+// of the other choices at decision i.
+//
+// It returns the number of decisions recorded when the thread parked again: decisions from there on
+// need not be expanded; decisions inside the excursion (the thread may be preempted between two of
+// its reads) still are.
+func (r *Result) NoopExcursion(i int) (bool, int) {
+	if i >= len(r.ChosenT) || r.ChosenT[i] < 0 {
+		return false, 0
+	}
+	for _, p := range r.Parks {
+		if p.Decision > i && p.Thread == r.ChosenT[i] {
+			// first park of that thread after the decision
+			if p.Epoch != r.EpochAt[i] {
+				return false, 0
+			}
+			// no other thread may have been chosen in between
+			for k := i + 1; k < p.Decision && k < len(r.ChosenT); k++ {
+				if r.ChosenT[k] != r.ChosenT[i] {
+					return false, 0
+				}
+			}
+			return true, p.Decision
+		}
+	}
+	return false, 0
 }
 
 // Active reports whether a scheduler is installed and not tearing down.
@@ -210,6 +327,7 @@ func Run(cfg Config, body func()) *Result {
 		s.horizon = 200000
 	}
 	s.thash = 1469598103934665603
+	s.objs = map[unsafe.Pointer]*objState{}
 	res := &Result{}
 	fin := make(chan struct{})
 	m := s.newThread(nil, body)
@@ -237,6 +355,7 @@ func Run(cfg Config, body func()) *Result {
 	s_ = nil
 	res.Choices, res.NCands, res.CurFirst, res.NodeHash = s.choices, s.ncands, s.curFirst, s.nodeHash
 	res.TraceHash, res.Steps, res.Ops = s.thash, s.steps, s.ops
+	res.EpochAt, res.ChosenT, res.Parks, res.FP = s.epochAt, s.chosenT, s.parks, s.fps
 	res.Panic = s.panicMsg
 	res.Diverged = s.diverged
 	switch s.abortWhy {
@@ -289,6 +408,13 @@ func (s *sched) newThread(parent *Thread, fn func()) *Thread {
 		fmt.Fprintf(&sb, "%d", n)
 	}
 	t.Name = sb.String()
+	t.h = spread(hashName(t.name))
+	if parent != nil {
+		// the spawn is an event of the parent and the origin of the child's history
+		s.ev(parent, 0x60, nil, true)
+		t.h = spread(mix(parent.h, hashName(t.name)))
+	}
+	s.fsum += spread(t.h ^ 0xabcdef)
 	s.threads = append(s.threads, t)
 	// insert sorted by name
 	i := sort.Search(len(s.order), func(i int) bool { return nameLess(t.name, s.order[i].name) })
@@ -362,6 +488,7 @@ func (s *sched) spawn(parent *Thread, fn func(), daemon bool) *Thread {
 			}
 			t.done = true
 			s.epoch++
+			s.ev(t, 0x61, unsafe.Pointer(t), true)
 			s.schedule(nil)
 		}()
 		fn()
@@ -525,6 +652,24 @@ func (s *sched) decide(n int, curFirst bool, cands []*Thread) int {
 		}
 	}
 	s.nodeHash = append(s.nodeHash, s.thash)
+	kindFlag := uint64(n) << 1
+	if cands != nil {
+		kindFlag |= 1
+	}
+	curIdx := uint64(0)
+	if s.cur != nil {
+		curIdx = hashName(s.cur.name)
+		if curFirst {
+			curIdx++
+		}
+	}
+	s.fps = append(s.fps, spread(s.fsum^mix(curIdx, kindFlag)))
+	s.epochAt = append(s.epochAt, s.epoch)
+	if cands != nil {
+		s.chosenT = append(s.chosenT, cands[c].idx)
+	} else {
+		s.chosenT = append(s.chosenT, -1)
+	}
 	s.choices = append(s.choices, c)
 	s.ncands = append(s.ncands, n)
 	s.curFirst = append(s.curFirst, curFirst)
@@ -580,7 +725,19 @@ func (s *sched) point(kind OpKind, obj unsafe.Pointer, write bool, spinnable boo
 			}
 		}
 		if dup {
+			if t.cycOK && t.cycEp == s.epoch {
+				// unproductive excursion: undo its reads
+				for i := 0; i < t.cycN; i++ {
+					t.cycLog[i].o.r -= t.cycLog[i].e
+				}
+				s.fsum += spread(t.cycH^0xabcdef) - spread(t.h^0xabcdef)
+				t.h = t.cycH
+			}
+			t.cycOK = false
 			t.op, t.spinEp = OpSpin, s.epoch
+			if s.exploring {
+				s.parks = append(s.parks, SpinPark{len(s.choices), t.idx, s.epoch})
+			}
 		} else if t.nseen < len(t.seen) {
 			t.seen[t.nseen] = h
 			t.nseen++
@@ -594,6 +751,7 @@ func (s *sched) point(kind OpKind, obj unsafe.Pointer, write bool, spinnable boo
 		if spinnable {
 			t.seen[0], t.nseen = h, 1
 		}
+		t.cycOK, t.cycEp, t.cycH, t.cycN = true, s.epoch, t.h, 0
 	}
 	s.granted(t, kind, write, label)
 	return t
@@ -603,6 +761,27 @@ func (s *sched) granted(t *Thread, kind OpKind, write bool, label string) {
 	t.nops++
 	if write {
 		s.epoch++
+	}
+	switch kind {
+	case OpSelect:
+		// recorded by Select once the clause is known
+	case OpQuiesce:
+		// a global barrier: depends on everything that happened
+		t.h = mix(t.h, s.fsum)
+		s.ev(t, uint64(kind), nil, true)
+	case OpJoin:
+		s.ev(t, uint64(kind), unsafe.Pointer(t.joinT), false)
+	case OpSleep:
+		s.ev(t, uint64(kind), unsafe.Pointer(&gClock), false)
+	case OpRecv:
+		s.ev(t, uint64(kind), t.obj, true)
+		if t.obj != nil {
+			if _, c, _ := chanState(t.obj); c == 0 {
+				s.evDep(t, unsafe.Pointer(&gCtx))
+			}
+		}
+	default:
+		s.ev(t, uint64(kind), t.obj, write)
 	}
 	s.thash = mix(mix(s.thash, hashName(t.name)), uint64(kind)+uint64(t.nops)<<8)
 	if s.trace {
@@ -675,10 +854,31 @@ func Write(obj unsafe.Pointer, label string) Mode {
 		return Teardown
 	}
 	s.epoch++
+	s.ev(s.cur, 0x62, obj, true)
 	if s.trace {
 		s.ops = append(s.ops, OpRec{s.cur.Name, "w", label})
 	}
 	return Active
+}
+
+// CtxCancel records a context cancellation (it closes Done channels without a channel operation).
+func CtxCancel() {
+	s := s_
+	if s == nil || s.off() {
+		return
+	}
+	s.epoch++
+	s.ev(s.cur, 0x63, unsafe.Pointer(&gCtx), true)
+}
+
+// Mark records a harness-level event (call, return, commit) whose order relative to other marks the
+// oracles observe: marks conflict with each other, so that order is part of the state fingerprint.
+func Mark() {
+	s := s_
+	if s == nil || s.off() {
+		return
+	}
+	s.ev(s.cur, 0x64, unsafe.Pointer(&gMark), true)
 }
 
 // Yield is an explicit scheduling point (engine decorator, harness clients).
@@ -687,7 +887,7 @@ func Yield(label string) {
 	if s == nil || s.off() {
 		return
 	}
-	s.point(OpRun, nil, true, false, label)
+	s.point(OpRun, unsafe.Pointer(&gYield), true, false, label)
 }
 
 // Quiesce blocks the caller until no other thread can run (spinning threads count as blocked).
